@@ -20,6 +20,11 @@ observed on
     quadrature weights of the *coefficient* distributions, recomputed here from the Gaussian formula; weights of
     focal-spread / angular-spread / cutoff distributions of a CTF must not enter (zero angle is transmitted with 1).
 
+Histories: ONE live Aberrations/CTF object is evaluated, exactly one of energy / gpts / sampling / extent / a coefficient is
+changed (public attributes, `set_aberrations`, or implicit matching to waves of another energy or grid through
+`_evaluate_kernel(waves)` / `waves.apply_transform`) and it is evaluated again; every evaluation is judged by the chi oracle
+for the current state and must equal the kernel of a fresh object with the same parameters (no state may survive a change).
+
 Metamorphic clause (independent of the chi model): kernel[all phi_nm + delta](alpha, phi) == kernel(alpha, phi - delta).
 
 Coefficients are set through every public route (kwargs, dict, attribute, `set_aberrations`, mixed dict+kwargs, 'scherzer')
@@ -36,6 +41,7 @@ RULE = ("fixed: each of the 25 polar symbols alone, each of the 12 (C_nm, phi_nm
         "[0.01, 60] rad with random sign (so that every term matters), angles in [-7, 7] rad, energies 20 keV-1 MeV, "
         "anisotropic odd/even/size-1 grids, names drawn from symbols and aliases, setting route drawn from "
         "kwargs/dict/attribute/set_aberrations/mixed, class Aberrations or CTF, precision float64/float32; scherzer cases; "
+        "histories of 2-5 single-parameter changes on one live object (explicit setters or matching to waves); "
         "ensemble cases with 1-2 uniform / Gaussian-weighted (intensity, amplitude) / user-weighted coefficient distributions and "
         "complete CTFs whose focal spread / angular spread / cutoff are such distributions; non-trivial = at least one magnitude coefficient is non-zero and the maximal phase exceeds 0.05 rad; "
         "distinct = distinct case signature")
@@ -43,7 +49,7 @@ CLAUSES = ["symbol-set", "stored-coefficient", "alias-get", "defocus-is-minus-C1
            "explicit-kernel", "alpha-zero-is-one", "phi-pm-pi", "rotation-metamorphic", "rotation-oracle", "apply-kernel",
            "scherzer", "ensemble-member-kernel", "grid-kernel-f32", "explicit-kernel-f32", "rotation-metamorphic-f32",
            "rotation-oracle-f32", "full-ctf-phase", "full-ctf-phase-f32", "full-ctf-dc-is-one",
-           "weighted-ensemble-member-kernel"]
+           "weighted-ensemble-member-kernel", "history-state", "history-kernel", "history-kernel-f32", "history-equals-fresh"]
 QUICK = dict(n=420, time=40)
 THOROUGH = dict(n=24000, time=300, shards=16)
 ASSUMPTIONS = ["wavelength taken from CODATA-2014 closed form (checked against abTEM by C24)",
@@ -458,6 +464,26 @@ def fixed_cases(tier):
                       full={"cutoff": {"gauss": [0.05 * amax * 1e3, 3, 0.6 * amax * 1e3, 2.0, "intensity", True]}, "soft": i == 0,
                             "focal": {"gauss": [6.0, 3, 25.0, 3.0, ["intensity", "amplitude"][i], True]},
                             "angular": {"gauss": [0.1, 2, 0.5, 2.0, "amplitude", False]}}))
+    # histories on one object: energy re-set on the same grid, and an energy-less object matched to waves of two energies
+    hco = {"C10": -120.0, "C12": 30.0, "phi12": 0.3, "C30": 2.0e5, "C23": 400.0, "phi23": -0.4}
+    for cls in ("CTF", "Aberrations"):
+        for prec in ("float64", "float32"):
+            out.append({"energy": 60e3, "gpts": [12, 15], "sampling": [0.2, 0.25], "precision": prec, "cls": cls, "how": "kwargs",
+                        "pt_seed": 1, "delta": 0.0, "apply": False, "kind": "history", "coeffs": hco, "names": {},
+                        "hist": {"mode": "explicit", "energy": 60e3, "gpts": [12, 15], "sampling": [0.2, 0.25],
+                                 "form": "gpts-extent" if cls == "CTF" else "gpts-sampling",
+                                 "steps": [{"op": "energy", "value": 100e3}, {"op": "energy", "value": 300e3},
+                                           {"op": "coeff", "symbol": "C10", "name": "defocus", "value": 80.0, "how": "attr"},
+                                           {"op": "gpts", "value": [14, 13]}, {"op": "energy", "value": 60e3}]}})
+            w = {"gpts": [12, 15], "sampling": [0.2, 0.25]}
+            out.append({"energy": 200e3, "gpts": [12, 15], "sampling": [0.2, 0.25], "precision": prec, "cls": cls, "how": "kwargs",
+                        "pt_seed": 2, "delta": 0.0, "apply": False, "kind": "history", "coeffs": hco, "names": {},
+                        "hist": {"mode": "match", "energy": 200e3, "gpts": [12, 15], "sampling": [0.2, 0.25], "form": "gpts-sampling",
+                                 "steps": [dict(w, op="energy", energy=200e3, via="kernel"),
+                                           dict(w, op="energy", energy=80e3, via="kernel"),
+                                           dict(w, op="energy", energy=300e3, via="transform"),
+                                           {"op": "gpts", "energy": 300e3, "gpts": [10, 15], "sampling": [0.2, 0.25],
+                                            "via": "transform"}]}})
     out.append({"energy": 80e3, "gpts": [8, 8], "sampling": [0.1, 0.1], "precision": "float64", "cls": "CTF", "how": "kwargs",
                 "pt_seed": 5, "delta": 0.4, "apply": True, "kind": "scherzer", "cs": 1.3e7, "cs_name": "Cs",
                 "word": "scherzer", "coeffs": {}, "names": {}})
@@ -640,6 +666,73 @@ def _apply(ctx, case, obj, coeffs, lam, tol):
     ctx.monitor("apply-runs")
 
 
+def _history(ctx, case):
+    """One live object through a history; every evaluation is judged by the chi oracle for the *current* state and must
+    equal the kernel of a freshly built object with the same final parameters."""
+    from abtem import transfer
+    cls = getattr(transfer, case["cls"])
+    hist = case["hist"]
+    f32 = case["precision"] == "float32"
+    sfx = "-f32" if f32 else ""
+    coeffs = {k: float(v) for k, v in case["coeffs"].items()}
+    energy = hist["energy"]
+    if hist["mode"] == "explicit":
+        obj = cls(aberration_coefficients=dict(coeffs), energy=energy, **history_grid_kwargs(hist))
+        steps = [None] + hist["steps"]
+    else:
+        obj = cls(aberration_coefficients=dict(coeffs))
+        steps = hist["steps"]
+    nontrivial = False
+    for i, step in enumerate(steps):
+        got, extra = None, 0.0
+        if step is not None:
+            if step["op"] == "coeff":
+                name, v = step["name"], step["value"]
+                if step["how"] == "attr":
+                    setattr(obj, name, _value_for(name, step["symbol"], v))
+                else:
+                    obj.set_aberrations({name: _value_for(name, step["symbol"], v)})
+                coeffs[step["symbol"]] = float(v)
+            if "via" in step:
+                energy = step["energy"]
+                got = history_step(obj, step, f32)
+                if step["via"] == "transform":
+                    extra = 1e-11 if not f32 else 3e-5
+            else:
+                if step["op"] == "energy":
+                    energy = step["value"]
+                history_step(obj, step, f32)
+        if got is None:
+            got = np.asarray(obj._evaluate_kernel())
+        # state: energy is modelled, the grid is read back (its adjustment rules are C17's business) -- except when the
+        # object was matched to waves, whose grid is known
+        ctx.expect(obj.energy == energy, "history-state", step=i, got=obj.energy, want=energy)
+        if step is not None and "via" in step:
+            g, smp = tuple(step["gpts"]), tuple(step["sampling"])
+            ctx.expect(tuple(obj.gpts) == g and np.allclose(obj.sampling, smp, rtol=1e-6), "history-state", step=i,
+                       gpts=list(obj.gpts), sampling=list(obj.sampling))
+        else:
+            g, smp = tuple(int(x) for x in obj.gpts), tuple(float(x) for x in obj.sampling)
+        stored = obj.aberration_coefficients
+        ctx.expect(all(float(stored[k]) == float(coeffs.get(k, 0.0)) for k in SYMBOLS), "history-state", step=i,
+                   what="coefficients")
+        lam = wl_ref(energy)
+        alpha_g, phi_g = grid_angles(g, smp, lam)
+        ps = phase_scale(coeffs, float(alpha_g.max()), lam)
+        tol = _tol(case, ps)
+        if not ctx.expect(got.shape == g, "history-kernel", what="shape", step=i, got=list(got.shape), want=list(g)):
+            return
+        ctx.close(got, kernel_ref(coeffs, alpha_g, phi_g, lam), "history-kernel" + sfx, rtol=0, atol=2 * tol + extra, scale=1.0,
+                  step=i, op=None if step is None else step["op"], energy=energy, gpts=list(g))
+        fresh = np.asarray(cls(aberration_coefficients=dict(coeffs), energy=energy, gpts=g, sampling=smp)._evaluate_kernel())
+        ctx.close(got, fresh, "history-equals-fresh", rtol=0, atol=2 * tol + extra, scale=1.0, step=i,
+                  op=None if step is None else step["op"])
+        ctx.monitor("history-evaluations")
+        if i > 0 and ps > 0.05:
+            nontrivial = True
+    ctx.nontrivial(nontrivial)
+
+
 def setup(ctx):
     # import outside the per-case watchdog: an interrupted import would poison every later case
     import abtem  # noqa: F401
@@ -678,6 +771,10 @@ def check(ctx, case):
             _check_stored(ctx, obj, coeffs, case)
             got_e, pts, tol, ps = _observe(ctx, obj, coeffs, case, lam)
             ctx.nontrivial(ps > 0.05)
+            return
+
+        if case["kind"] == "history":
+            _history(ctx, case)
             return
 
         if case["kind"] == "ensemble":
